@@ -41,13 +41,22 @@ def gen_case(seed, tier="quick"):
         F = r.choice((1, 1, 2, 3, 5))
         how = r.choice(("callable", "tensor2d", "tensor3d", "points", "functionset", "collection"))
         specs = [_spec(r) for _ in range(F)]
+        if how == "collection":
+            # sums of 2..4 function sets of unequal sizes
+            r2 = rnd(seed, "collection", len(hist))
+            parts = r2.choice((2, 3, 3, 4))
+            specs += [_spec(r2) for _ in range(r2.choice((0, 1, 2, 4)))]
         if c < 0.4:
             hist.append({"op": "fix", "how": how, "specs": specs})
+            if how == "collection":
+                hist[-1]["parts"] = parts
         else:
             op = {"op": "forward", "N": r.choice((1, 2, 5, 9)), "xseed": r.randrange(10 ** 6),
                   "layout": r.choice(("shared", "shared", "per_function"))}
             if r.random() < 0.25:
                 op.update(with_branch=True, how=how, specs=specs)
+                if how == "collection":
+                    op["parts"] = parts
             hist.append(op)
     if not any(h["op"] == "fix" or h.get("with_branch") for h in hist[:1]):
         hist.insert(0, {"op": "fix", "how": "tensor3d", "specs": [_spec(r) for _ in range(2)]})
